@@ -1,0 +1,472 @@
+//go:build verif
+
+// Accessors and sync points for the verification harness in /verif. Compiled only with -tags verif.
+// Nothing here changes engine behaviour: the accessors read engine state, the sync points call a
+// callback that is nil unless the harness installs one.
+package engine
+
+import (
+	"fmt"
+	"sort"
+	"strings"
+	"time"
+)
+
+// ---- sync points (call sites live in search.go / uci.go, see verif_sync_off.go for the no-op twin) ----
+
+const (
+	VsSearchEntered  = 1 // search thread entered StartIterativeDeepening (before it touched any state)
+	VsRootMoveDone   = 2 // a = iteration depth, b = index of the root move just searched
+	VsIterationDone  = 3 // a = iteration depth
+	VsBeforeBestmove = 4
+	VsAfterBestmove  = 5 // search thread is about to exit
+)
+
+var VerifSyncHook func(point, a, b int)
+var VerifDeadlineHook func(start, end time.Time, depth int)
+
+func verifSync(point, a, b int) {
+	if h := VerifSyncHook; h != nil {
+		h(point, a, b)
+	}
+}
+
+func verifDeadline(start, end time.Time, depth int) {
+	if h := VerifDeadlineHook; h != nil {
+		h(start, end, depth)
+	}
+}
+
+// ---- state accessors ----
+
+func VerifCurrent() *Generator { return posGen }
+func VerifResetSession() {
+	posGen = nil
+	search = nil
+	Quit = false
+	currmoveLogInterval = currmoveLogIntervalDefault
+	for i := range killerMoves {
+		killerMoves[i] = [2]Move{}
+	}
+}
+func VerifSearchRunning() bool         { return search != nil && search.running.Load() }
+func VerifLogInterval() int            { return currmoveLogInterval }
+func (gen *Generator) VerifTop() *Position { return gen.getTopPos() }
+func (gen *Generator) VerifPlyIdx() int    { return int(gen.plyIdx) }
+func VerifEvaluatedNodes() int64       { return evaluatedNodes }
+
+func hexBytes(b []byte) string {
+	const digits = "0123456789abcdef"
+	out := make([]byte, 0, 2*len(b))
+	for _, v := range b {
+		out = append(out, digits[v>>4], digits[v&15])
+	}
+	return string(out)
+}
+
+func sqBytes(s []square) []byte {
+	out := make([]byte, len(s))
+	for i, v := range s {
+		out[i] = byte(v)
+	}
+	return out
+}
+
+// Canonical text of a position: board bytes, the active prefix of every list in list order, kings, flags, ep, ply.
+func VerifSnapshot(pos *Position) string {
+	board := make([]byte, 128)
+	for i, p := range pos.board {
+		board[i] = byte(p)
+	}
+	return fmt.Sprintf("B=%s bq=%s wq=%s bp=%s wp=%s bk=%02x wk=%02x fl=%02x ep=%02x ply=%d",
+		hexBytes(board),
+		hexBytes(sqBytes(pos.blackPieces.squares[:pos.blackPieces.size])),
+		hexBytes(sqBytes(pos.whitePieces.squares[:pos.whitePieces.size])),
+		hexBytes(sqBytes(pos.blackPawns.squares[:pos.blackPawns.size])),
+		hexBytes(sqBytes(pos.whitePawns.squares[:pos.whitePawns.size])),
+		byte(pos.blackKing), byte(pos.whiteKing), pos.flags, byte(pos.enPassSquare), pos.ply)
+}
+
+// Strict list <-> board bijection (stronger than AssertConsistency): returns "" when consistent.
+func VerifStrictCheck(pos *Position) string {
+	seen := map[square]string{}
+	note := func(name string, sq square, want func(piece) bool) string {
+		if sq&InvalidSquare != 0 {
+			return fmt.Sprintf("%s has off-board square %02x", name, byte(sq))
+		}
+		if prev, dup := seen[sq]; dup {
+			return fmt.Sprintf("square %v on %s and %s", sq, prev, name)
+		}
+		seen[sq] = name
+		if !want(pos.board[sq]) {
+			return fmt.Sprintf("%s lists %v but board has %02x", name, sq, byte(pos.board[sq]))
+		}
+		return ""
+	}
+	isPiece := func(col piece) func(piece) bool {
+		return func(p piece) bool {
+			k := p & ColorlessPiece
+			return p&col != 0 && p&(BlackPieceBit|WhitePieceBit) == col && (k == Knight || k == Bishop || k == Rook || k == Queen)
+		}
+	}
+	is := func(x piece) func(piece) bool { return func(p piece) bool { return p == x } }
+	for i := int8(0); i < pos.blackPieces.size; i++ {
+		if e := note("blackPieces", pos.blackPieces.squares[i], isPiece(BlackPieceBit)); e != "" {
+			return e
+		}
+	}
+	for i := int8(0); i < pos.whitePieces.size; i++ {
+		if e := note("whitePieces", pos.whitePieces.squares[i], isPiece(WhitePieceBit)); e != "" {
+			return e
+		}
+	}
+	for i := int8(0); i < pos.blackPawns.size; i++ {
+		if e := note("blackPawns", pos.blackPawns.squares[i], is(BPawn)); e != "" {
+			return e
+		}
+	}
+	for i := int8(0); i < pos.whitePawns.size; i++ {
+		if e := note("whitePawns", pos.whitePawns.squares[i], is(WPawn)); e != "" {
+			return e
+		}
+	}
+	if e := note("blackKing", pos.blackKing, is(BKing)); e != "" {
+		return e
+	}
+	if e := note("whiteKing", pos.whiteKing, is(WKing)); e != "" {
+		return e
+	}
+	for i, p := range pos.board {
+		sq := square(i)
+		if sq&InvalidSquare != 0 {
+			if p != NullPiece {
+				return fmt.Sprintf("off-board cell %02x holds %02x", i, byte(p))
+			}
+			continue
+		}
+		if _, listed := seen[sq]; p != NullPiece && !listed {
+			return fmt.Sprintf("board has %02x on %v but no list has it", byte(p), sq)
+		}
+	}
+	return ""
+}
+
+func moveText(m rankedMove) string {
+	s := m.mov.String()
+	if m.flags&mFlagTactical != 0 {
+		s += "*"
+	}
+	if m.mov.enPassant != InvalidSquare {
+		s += "@" + m.mov.enPassant.String()
+	}
+	return s
+}
+
+func sortedJoin(l []string) string {
+	sort.Strings(l)
+	return strings.Join(l, " ")
+}
+
+// Legal moves as sorted text; '*' marks the tactical flag, '@sq' the en-passant target a double push carries.
+func VerifLegal(gen *Generator) string {
+	var out []string
+	for _, m := range gen.GenerateMoves() {
+		out = append(out, moveText(m))
+	}
+	return sortedJoin(out)
+}
+
+func VerifTactical(gen *Generator) string {
+	var out []string
+	for _, m := range gen.GenerateTacticalMoves() {
+		out = append(out, moveText(m))
+	}
+	return sortedJoin(out)
+}
+
+// Legal moves in generation order after the legality filter (before any sorting), plain notation.
+func VerifLegalOrdered(gen *Generator) []string {
+	var out []string
+	for _, m := range gen.GenerateMoves() {
+		out = append(out, m.mov.String())
+	}
+	return out
+}
+
+func VerifCountMoves(pos *Position) int         { return pos.countMoves() }
+func VerifCountTacticalMoves(pos *Position) int { return pos.countTacticalMoves() }
+func VerifInCheck(pos *Position) bool           { return pos.isCurrentKingUnderCheck() }
+
+// Is square sq attacked by the pieces of the given colour (as isUnderCheck sees it)?
+func VerifAttacked(pos *Position, sq byte, byWhite bool) bool {
+	if byWhite {
+		return pos.isUnderCheck(pos.whitePieces, pos.whitePawns, pos.whiteKing, square(sq))
+	}
+	return pos.isUnderCheck(pos.blackPieces, pos.blackPawns, pos.blackKing, square(sq))
+}
+
+// 128-bit map as 32 hex digits: bit i of the first half = square i (0..63, a1=0) attacked by white, second half by black.
+func VerifAttackMap(pos *Position) string {
+	var bits [16]byte
+	for c := 0; c < 2; c++ {
+		for i := 0; i < 64; i++ {
+			sq := byte((i>>3)<<4 | i&7)
+			if VerifAttacked(pos, sq, c == 0) {
+				bits[c*8+i/8] |= 1 << (i % 8)
+			}
+		}
+	}
+	return hexBytes(bits[:])
+}
+
+// Full evaluation and its material + piece-square part, both from the mover's point of view.
+func VerifEval(pos *Position) (full, materialSquares int) {
+	saved := evaluatedNodes
+	full = Evaluate(pos, 0)
+	materialSquares = pieceSquareScore(pos, gamePhaseFactor(pos))
+	evaluatedNodes = saved
+	return
+}
+
+func VerifIsCheckMate(pos *Position) bool { return isCheckMate(pos) }
+
+// Low-level attack query on an arbitrary board: one attacker of the given piece byte on 'from' (plus optional blocker).
+func VerifSingleAttack(attacker byte, from, to byte, blocker int) bool {
+	var pos Position
+	pos.enPassSquare = InvalidSquare
+	pos.board[from] = piece(attacker)
+	if blocker >= 0 {
+		pos.board[blocker] = WKnight
+	}
+	var pieces pieceList
+	var pawns pawnList
+	kind := piece(attacker) & ColorlessPiece
+	white := piece(attacker)&WhitePieceBit != 0
+	// isUnderCheck picks the pawn-attack flag from the colour of the piece on the attackers' king square, so a king of
+	// the attacker's colour is parked on a square from where it neither attacks 'to' nor blocks the line
+	switch kind {
+	case Pawn:
+		pawns.appendPawn(square(from))
+	case King:
+	default:
+		pieces.appendPiece(square(from))
+	}
+	kingSq := verifSpareSquare(from, to, blocker)
+	if kind == King {
+		kingSq = square(from)
+	} else {
+		if white {
+			pos.board[kingSq] = WKing
+		} else {
+			pos.board[kingSq] = BKing
+		}
+		// a parked king must not itself attack the target: verifSpareSquare keeps distance >= 2
+	}
+	return pos.isUnderCheck(pieces, pawns, kingSq, square(to))
+}
+
+// a valid square at king-distance >= 2 from 'to' and different from the given squares, not between from and to
+func verifSpareSquare(from, to byte, blocker int) square {
+	for i := 0; i < 64; i++ {
+		sq := byte((i>>3)<<4 | i&7)
+		if sq == from || sq == to || int(sq) == blocker {
+			continue
+		}
+		df := int(sq&15) - int(to&15)
+		dr := int(sq>>4) - int(to>>4)
+		if df < 0 {
+			df = -df
+		}
+		if dr < 0 {
+			dr = -dr
+		}
+		if df < 2 && dr < 2 {
+			continue
+		}
+		// not on the segment between from and to (would act as a blocker for sliders)
+		if verifBetween(from, to, sq) {
+			continue
+		}
+		return square(sq)
+	}
+	return InvalidSquare
+}
+
+func verifBetween(from, to, x byte) bool {
+	ff, fr, tf, tr, xf, xr := int(from&15), int(from>>4), int(to&15), int(to>>4), int(x&15), int(x>>4)
+	df, dr := tf-ff, tr-fr
+	if !(df == 0 || dr == 0 || df == dr || df == -dr) {
+		return false
+	}
+	sg := func(v int) int {
+		if v > 0 {
+			return 1
+		} else if v < 0 {
+			return -1
+		}
+		return 0
+	}
+	sf, sr := sg(df), sg(dr)
+	for f, r := ff+sf, fr+sr; f != tf || r != tr; f, r = f+sf, r+sr {
+		if f == xf && r == xr {
+			return true
+		}
+	}
+	return false
+}
+
+// ---- moves ----
+
+// Finds the generated legal move with this text and pushes it (search path: PushMove).
+func VerifPush(gen *Generator, text string) error {
+	for _, m := range gen.GenerateMoves() {
+		if m.mov.String() == text {
+			gen.PushMove(m.mov)
+			return nil
+		}
+	}
+	return fmt.Errorf("no legal move %s", text)
+}
+
+func VerifPop(gen *Generator) { gen.PopMove() }
+
+// The 'position ... moves' path: parseMoveString + ApplyUciMove.
+func VerifApplyUci(gen *Generator, text string) error {
+	m, err := parseMoveString(text)
+	if err != nil {
+		return err
+	}
+	gen.ApplyUciMove(m)
+	return nil
+}
+
+// parseMoveString as numbers: from, to, promotion piece byte.
+func VerifParseMove(text string) (from, to, promo byte, err error) {
+	m, e := parseMoveString(text)
+	return byte(m.from), byte(m.to), byte(m.promoteTo), e
+}
+
+// Move.String for raw components.
+func VerifMoveString(from, to, promo byte) string {
+	return Move{square(from), square(to), piece(promo), InvalidSquare}.String()
+}
+
+func VerifPerft(gen *Generator, depth int) int64         { return gen.Perft(depth) }
+func VerifPerftTactical(gen *Generator, depth int) int64 { return gen.PerftTactical(depth) }
+
+// digest of the killer table: number of non-empty slots and a text of the first few
+func VerifKillerDigest() string {
+	n := 0
+	var sb strings.Builder
+	for i, k := range killerMoves {
+		if k[0] != (Move{}) || k[1] != (Move{}) {
+			n++
+			if n <= 4 {
+				sb.WriteString(fmt.Sprintf(" %d:%v/%v", i, k[0], k[1]))
+			}
+		}
+	}
+	return fmt.Sprintf("%d%s", n, sb.String())
+}
+
+// ---- tables and constants for Generated.v ----
+
+func VerifGenCoq(emit func(string)) {
+	tab := func(name string, t *[128]int8) {
+		var sb strings.Builder
+		sb.WriteString("Definition " + name + " : list Z := [")
+		for i, v := range t {
+			if i > 0 {
+				sb.WriteString("; ")
+			}
+			sb.WriteString(fmt.Sprintf("(%d)", int(v)))
+		}
+		sb.WriteString("].")
+		emit(sb.String())
+	}
+	tab("pst_pawn_w", &sqTablePawnsWhite)
+	tab("pst_pawn_b", &sqTablePawnsBlack)
+	tab("pst_knight_w", &sqTableKnightsWhite)
+	tab("pst_knight_b", &sqTableKnightsBlack)
+	tab("pst_bishop_w", &sqTableBishopsWhite)
+	tab("pst_bishop_b", &sqTableBishopsBlack)
+	tab("pst_rook_w", &sqTableRooksWhite)
+	tab("pst_rook_b", &sqTableRooksBlack)
+	tab("pst_queen_w", &sqTableQueensWhite)
+	tab("pst_queen_b", &sqTableQueensBlack)
+	tab("pst_kingmid_w", &sqTableKingMidgameWhite)
+	tab("pst_kingmid_b", &sqTableKingMidgameBlack)
+	tab("pst_kingend_w", &sqTableKingEndgameWhite)
+	tab("pst_kingend_b", &sqTableKingEndgameBlack)
+	list := func(name string, n int, at func(int) int) {
+		var sb strings.Builder
+		sb.WriteString("Definition " + name + " : list Z := [")
+		for i := 0; i < n; i++ {
+			if i > 0 {
+				sb.WriteString("; ")
+			}
+			sb.WriteString(fmt.Sprintf("(%d)", at(i)))
+		}
+		sb.WriteString("].")
+		emit(sb.String())
+	}
+	list("gen_attack_table", len(attackTable), func(i int) int { return int(attackTable[i]) })
+	list("gen_direction_table", len(directionTable), func(i int) int { return int(directionTable[i]) })
+	list("gen_king_directions", len(kingDirections), func(i int) int { return int(kingDirections[i]) })
+	c := func(name string, v int) { emit(fmt.Sprintf("Definition %s : Z := (%d).", name, v)) }
+	c("LostScore", LostScore)
+	c("InfinityScore", InfinityScore)
+	c("DrawScore", DrawScore)
+	c("ScoreCloseToMate", ScoreCloseToMate)
+	c("StartingSumOfMaterial", StartingSumOfMaterial)
+	c("fullEvalScoreMargin", fullEvalScoreMargin)
+	c("MobilityScoreFactor", MobilityScoreFactor)
+	c("MatPawn", MaterialPawnScore)
+	c("MatKnight", MaterialKnightScore)
+	c("MatBishop", MaterialBishopScore)
+	c("MatRook", MaterialRookScore)
+	c("MatQueen", MaterialQueenScore)
+	c("MaxSearchDepth", MaxSearchDepth)
+	c("maxQuiescencePlies", maxQuiescencePlies)
+	c("pvTableRows", pvTableRows)
+	c("killerMovesMaxPly", killerMovesMaxPly)
+	c("plyBufferCapacity", plyBufferCapacity)
+	c("ExpectedFullMovesToBePlayed", ExpectedFullMovesToBePlayed)
+	c("antiflagMillis", antiflagMillis)
+	c("pawnCapZ", pawnCap)
+	c("pieceCapZ", pieceCap)
+	c("maxFullMoveCounter", maxFullMoveCounter)
+	c("currmoveLogIntervalDefault", currmoveLogIntervalDefault)
+	c("currmoveLogIntervalMin", currmoveLogIntervalMin)
+	c("currmoveLogIntervalMax", currmoveLogIntervalMax)
+	c("rankingBonusPvMove", int(rankingBonusPvMove))
+	c("rankingBonusTactical", int(rankingBonusTactical))
+	c("rankingBonusKiller1st", int(rankingBonusKiller1st))
+	c("rankingBonusKiller2nd", int(rankingBonusKiller2nd))
+	c("lastValidSquare", int(lastValidSquare))
+	// byte encodings
+	c("enc_BlackPieceBit", int(BlackPieceBit))
+	c("enc_WhitePieceBit", int(WhitePieceBit))
+	c("enc_Pawn", int(Pawn))
+	c("enc_Knight", int(Knight))
+	c("enc_Bishop", int(Bishop))
+	c("enc_Rook", int(Rook))
+	c("enc_Queen", int(Queen))
+	c("enc_King", int(King))
+	c("enc_BPawnAttacks", int(BPawnAttacks))
+	c("enc_WPawnAttacks", int(WPawnAttacks))
+	c("enc_KnightAttacks", int(KnightAttacks))
+	c("enc_BishopAttacks", int(BishopAttacks))
+	c("enc_RookAttacks", int(RookAttacks))
+	c("enc_QueenAttacks", int(QueenAttacks))
+	c("enc_KingAttacks", int(KingAttacks))
+	c("enc_FlagWhiteTurn", int(FlagWhiteTurn))
+	c("enc_FlagWhiteCanCastleKside", int(FlagWhiteCanCastleKside))
+	c("enc_FlagWhiteCanCastleQside", int(FlagWhiteCanCastleQside))
+	c("enc_FlagBlackCanCastleKside", int(FlagBlackCanCastleKside))
+	c("enc_FlagBlackCanCastleQside", int(FlagBlackCanCastleQside))
+	c("enc_InvalidSquare", int(InvalidSquare))
+	// start position, as the snapshot the model's own start position must reproduce
+	start := NewPosition()
+	emit(fmt.Sprintf("Definition gen_start_snapshot : string := \"%s\"%%string.", VerifSnapshot(&start)))
+}
